@@ -130,6 +130,33 @@ def run(tier, seed):
         ycov.update(merge_common.under_yields(v, tier, seed))
     except (ImportError, AttributeError):
         pass
+    # injected read errors inside the diff and merge pipelines: every run must end, and a fault that fired is
+    # reported to the caller (or did not matter)
+    fcov = {}
+    try:
+        fscen = os.path.join(vlib.sub("scn"), "diff-fault.ndjson")
+        with open(dscen) as f, open(fscen, "w") as g:
+            for i, line in enumerate(f):
+                if i % (6 if tier == "quick" else 2) == seed % 2:
+                    g.write(line)
+        o = vlib.replay("difffault", fscen, env={"VERIF_SEED": str(seed)}, timeout=120)
+        vlib.absorb_replay(v, o, "difffault", fscen, crash_sig=lambda sc, t: "diff/fault/crash")
+        fcov["diff"] = {"pairs": o.total, "ok": o.passed, "classes": o.classes}
+        mscen = os.path.join(vlib.sub("scn"), "merge-yield.ndjson")
+        if os.path.exists(mscen):
+            mf = os.path.join(vlib.sub("scn"), "merge-fault.ndjson")
+            with open(mscen) as f, open(mf, "w") as g:
+                for i, line in enumerate(f):
+                    if i % (5 if tier == "quick" else 1) == seed % (5 if tier == "quick" else 1):
+                        g.write(line)
+            o = vlib.replay("mergefault", mf, env={"VERIF_SEED": str(seed)}, timeout=180)
+            vlib.absorb_replay(v, o, "mergefault", mf, crash_sig=lambda sc, t: "merge/fault/crash")
+            fcov["merge"] = {"pairs": o.total, "ok": o.passed, "classes": o.classes}
+        for k, c in fcov.items():
+            if not any("fired=true" in cl for cl in c["classes"]):
+                raise vlib.Inconclusive("no injected read error fired in the %s fault runs (vacuous)" % k)
+    except NameError:
+        pass
     # auxiliary: race detector on the pool runs
     race = None
     if tier == "thorough":
@@ -156,6 +183,7 @@ def run(tier, seed):
         "classes": out.classes,
         "model_configs": detail,
         "under_yields": ycov,
+        "injected_read_errors": fcov,
         "race_detector": race,
         "samples": vlib.samples_from(cases, 4),
     }
